@@ -112,6 +112,8 @@ type SymJob struct {
 	Setup func(st *gosym.State)
 	Tweak func(cfg *gosym.Config)
 	pre   func()
+	// unwindIsFinding: unwinding failures are handed to the caller (confirmed natively) instead of being inconclusive
+	unwindIsFinding bool
 }
 
 // ReplaySpec says where a harness lives so that a model can be re-run natively.
@@ -157,6 +159,9 @@ func (c *Ctx) RunSym(job SymJob) *gosym.Report {
 	c.Evaluations += rep.Paths
 	c.mu.Unlock()
 	for _, p := range rep.Problems {
+		if job.unwindIsFinding && strings.HasPrefix(p, "unwind:") {
+			continue
+		}
 		c.Inconclusive("%s: %s", job.Name, p)
 	}
 	if rep.Truncated {
